@@ -107,7 +107,9 @@ def _mutated(fn, name):
                     continue
                 if isinstance(n, ast.Call) and ch in n.args and isinstance(
                         n.func, ast.Name) and n.func.id in (
-                            "zip", "enumerate", "len"):
+                            "zip", "enumerate", "len", "max", "min", "sum",
+                            "any", "all", "tuple", "list", "sorted", "set",
+                            "frozenset", "reversed"):
                     continue
                 if isinstance(n, ast.keyword) and n.arg is None:
                     continue
@@ -474,6 +476,15 @@ class _Fold(ast.NodeTransformer):
 
     def visit_Call(self, n):
         self.generic_visit(n)
+        # max((a, b)) is max(a, b)
+        if isinstance(n.func, ast.Name) and n.func.id in ("max", "min") \
+                and len(n.args) == 1 and not n.keywords and isinstance(
+                    n.args[0], (ast.Tuple, ast.List)) and len(
+                        n.args[0].elts) >= 2 and not any(
+                            isinstance(x, ast.Starred)
+                            for x in n.args[0].elts):
+            return ast.copy_location(ast.Call(n.func, list(n.args[0].elts),
+                                              []), n)
         # getattr(x, "name") is x.name
         if isinstance(n.func, ast.Name) and n.func.id == "getattr" and len(
                 n.args) == 2 and not n.keywords and isinstance(
